@@ -3,7 +3,7 @@
      names_wf : every long name, short name and alias denotes at most one option across the format and its bases;
      args_wf  : at most one multi-valued argument and it is last, no required argument after an optional one
                 (order_ok over base arguments followed by own), and the builder's flags agree with the arguments. *)
-From Clikit Require Import Base.Prelude Base.Res Model.Format Proofs.FormatLemmas.
+From Clikit Require Import Base.Prelude Base.Res Model.Conv Model.Format Proofs.FormatLemmas Proofs.FormatAgreeLemmas.
 
 (* Each single addition is either rejected - and then the builder is exactly the old one - ... *)
 Theorem rejected_add_leaves_builder_unchanged : forall f o k,
@@ -25,9 +25,10 @@ Theorem empty_builder_wf : wf (empty_builder None) /\ forall bf, wf bf -> wf (em
 Proof. split; [exact empty_builder_wf_none | exact empty_builder_wf_some]. Qed.
 Print Assumptions empty_builder_wf.
 
-(* The finished format answers the argument / listing / predicate queries exactly as the builder
-   (PARTIAL: equality of the rebuilt option short-name and command-option indexes is checked by the
-   correspondence run only; see DESIGN.md C06). *)
+(* The finished format answers the argument / listing / predicate queries exactly as the builder, for every
+   builder state whatsoever (these fields are copied).  The option queries, which go through the rebuilt
+   short-name and command-option indexes, need the builder invariant idx_inv: see
+   format_agrees_with_builder below, which covers every query. *)
 Theorem format_agrees_with_builder_partial : forall f r incl,
   has_argument (build_format f) r incl = has_argument f r incl /\
   get_argument (build_format f) r incl = get_argument f r incl /\
@@ -47,3 +48,104 @@ Theorem predicates_sound : forall f, args_inv f ->
   has_multi_all f = existsb a_multi (args_of f) /\ has_optional_all f = existsb a_optional (args_of f).
 Proof. intros f H. split; [apply has_multi_all_spec | apply has_optional_all_spec]; exact H. Qed.
 Print Assumptions predicates_sound.
+
+(* ---- FULL agreement of the finished format with its builder ----
+   ArgsFormat(builder) copies base, command names, arguments, options and flags, and REBUILDS the option
+   short-name index and both command-option indexes (long names + long aliases, short names + short aliases)
+   from the listings.  idx_inv f says that the builder's own indexes are exactly the rebuilt ones:
+     f_opts_short f = short_index (f_opts f)                      (short_index: the loop of ArgsFormat.__init__)
+     (f_copts f, f_copts_short f) = index_copts (map snd (f_copts f))
+   ask f q is the answer of f to the public query q (every has_* / get_* of the model, with its name /
+   position argument and its include_base flag, and base_format). *)
+Theorem format_agrees_with_builder : forall f, idx_inv f -> forall q, ask (build_format f) q = ask f q.
+Proof. exact idx_inv_agrees. Qed.
+Print Assumptions format_agrees_with_builder.
+
+(* in fact the built format IS the builder state, field by field *)
+Theorem built_format_is_builder_state : forall f, idx_inv f -> build_format f = f.
+Proof. exact idx_inv_build. Qed.
+Print Assumptions built_format_is_builder_state.
+
+(* idx_inv is an invariant of reachable builders: it holds for the empty builder over ANY base (no hypothesis
+   on the base, on the added elements or on the success of the additions) and every operation keeps it *)
+Theorem idx_inv_empty_builder : forall base, idx_inv (empty_builder base).
+Proof. exact empty_builder_idx. Qed.
+Print Assumptions idx_inv_empty_builder.
+Theorem step_keeps_idx_inv : forall f o, idx_inv f -> idx_inv (fst (bstep f o)).
+Proof. exact bstep_keeps_idx. Qed.
+Print Assumptions step_keeps_idx_inv.
+Theorem reachable_idx_inv : forall ops f, idx_inv f -> idx_inv (brun f ops).
+Proof. exact brun_keeps_idx. Qed.
+Print Assumptions reachable_idx_inv.
+
+(* hence: whatever was added or replaced, accepted or rejected, over whatever base *)
+Theorem reachable_format_agrees_with_builder : forall base ops q,
+  ask (build_format (brun (empty_builder base) ops)) q = ask (brun (empty_builder base) ops) q.
+Proof. exact reachable_agrees. Qed.
+Print Assumptions reachable_format_agrees_with_builder.
+
+(* ArgsFormat(elements, base): the format answers as the builder that received the elements *)
+Theorem format_of_elements_agrees_with_builder : forall es base f b,
+  add_elements (empty_builder base) es = Ok b -> format_of_elements es base = Ok f ->
+  forall q, ask f q = ask b q.
+Proof. exact format_of_elements_agrees. Qed.
+Print Assumptions format_of_elements_agrees_with_builder.
+
+(* the option queries of the statement spelled out (n ranges over long names, short names and aliases alike) *)
+Theorem format_agrees_with_builder_options : forall f, idx_inv f -> forall n incl,
+  has_option (build_format f) n incl = has_option f n incl /\
+  get_option (build_format f) n incl = get_option f n incl /\
+  has_command_option (build_format f) n incl = has_command_option f n incl /\
+  get_command_option (build_format f) n incl = get_command_option f n incl /\
+  get_command_options (build_format f) incl = get_command_options f incl /\
+  has_command_options (build_format f) incl = has_command_options f incl /\
+  has_options (build_format f) incl = has_options f incl /\
+  has_arguments (build_format f) incl = has_arguments f incl /\
+  has_command_names (build_format f) incl = has_command_names f incl.
+Proof. exact idx_inv_option_queries. Qed.
+Print Assumptions format_agrees_with_builder_options.
+
+(* reading of the rebuilt short-name index: it holds exactly the short names of the listed options *)
+Theorem short_index_reading : forall os,
+  (forall s o, sget s (short_index os) = Some o -> In o (map snd os) /\ o_short o = Some s) /\
+  (forall o s, In o (map snd os) -> o_short o = Some s ->
+     exists o', sget s (short_index os) = Some o' /\ o_short o' = Some s).
+Proof. intros os. split; [apply short_index_sound | apply short_index_complete]. Qed.
+Print Assumptions short_index_reading.
+
+(* Instance: base format { --verbose/-v ; command option help/-h, long alias usage, short alias -? };
+   builder over it: --force/-f, --quiet/-q, command option add/-a with long aliases new, create and short
+   alias -n, argument file, then --v (rejected: the name is taken in the base).
+   The invariant holds, and the built format answers by long name, short name and alias, own and inherited. *)
+Example format_agrees_instance :
+  let verbose := {| o_long := [118;101;114;98;111;115;101]%N; o_short := Some [118]%N; o_flags := 4; o_default := VNone |} in
+  let help := {| co_long := [104;101;108;112]%N; co_short := Some [104]%N; co_lals := [[117;115;97;103;101]%N]; co_sals := [[63]%N] |} in
+  let force := {| o_long := [102;111;114;99;101]%N; o_short := Some [102]%N; o_flags := 4; o_default := VNone |} in
+  let quiet := {| o_long := [113;117;105;101;116]%N; o_short := Some [113]%N; o_flags := 4; o_default := VNone |} in
+  let add := {| co_long := [97;100;100]%N; co_short := Some [97]%N;
+                co_lals := [[110;101;119]%N; [99;114;101;97;116;101]%N]; co_sals := [[110]%N] |} in
+  let file := {| a_name := [102;105;108;101]%N; a_flags := 1; a_default := VNone |} in
+  let clash := {| o_long := [118]%N; o_short := None; o_flags := 4; o_default := VNone |} in
+  match format_of_elements [EOpt verbose; ECOpt help] None with Err _ => False | Ok base =>
+  let ops := [AddOption force; AddOption quiet; AddCommandOption add; AddArgument file; AddOption clash] in
+  let b := brun (empty_builder (Some base)) ops in
+  let F := build_format b in
+  idx_inv b /\ F = b /\
+  snd (bstep (brun (empty_builder (Some base)) (removelast ops)) (AddOption clash)) = Some CannotAddOption /\
+  map fst (f_opts_short F) = [[102]%N; [113]%N] /\
+  map fst (f_copts F) = [[97;100;100]%N; [110;101;119]%N; [99;114;101;97;116;101]%N] /\
+  map fst (f_copts_short F) = [[97]%N; [110]%N] /\
+  get_option F [102;111;114;99;101]%N false = Ok force /\ get_option F [102]%N false = Ok force /\
+  get_option F [113]%N true = Ok quiet /\
+  get_option F [118]%N true = Ok verbose /\ get_option F [118]%N false = Err NoSuchOption /\
+  has_option F [118]%N true = true /\ has_option F [118]%N false = false /\
+  get_command_option F [97;100;100]%N false = Ok add /\ get_command_option F [97]%N false = Ok add /\
+  get_command_option F [99;114;101;97;116;101]%N false = Ok add /\ get_command_option F [110]%N false = Ok add /\
+  get_command_option F [117;115;97;103;101]%N true = Ok help /\ get_command_option F [63]%N true = Ok help /\
+  get_command_option F [63]%N false = Err NoSuchOption /\
+  has_command_option F [110;101;119]%N false = true /\ has_command_option F [104]%N true = true /\
+  has_command_option F [104]%N false = false /\
+  get_command_options F false = [add; add; add] /\ get_command_options F true = [add; add; add; help; help] /\
+  get_command_options b true = [add; add; add; help; help]
+  end.
+Proof. vm_compute. repeat split; reflexivity. Qed.
